@@ -494,8 +494,10 @@ func (h *Session) SetDHCPv4IPOffer(mac net.HardwareAddr, ip netip.Addr, name Nam
 	h.mutex.Lock()
 	defer h.mutex.Unlock()
 	macEntry := h.MACTable.findOrCreate(mac)
+	macEntry.Row.Lock() // readers hold the row lock only
 	macEntry.IP4Offer = ip
 	macEntry.DHCP4Name = name
+	macEntry.Row.Unlock()
 }
 
 // DHCPv4Offer returns the dhcp v4 ip offer if one is available.
@@ -504,6 +506,8 @@ func (h *Session) DHCPv4IPOffer(mac net.HardwareAddr) netip.Addr {
 	h.mutex.RLock()
 	defer h.mutex.RUnlock()
 	if entry, _ := h.MACTable.findMAC(mac); entry != nil {
+		entry.Row.RLock() // DHCPv4Update sets the offer with the row lock only
+		defer entry.Row.RUnlock()
 		return entry.IP4Offer
 	}
 	return netip.Addr{}
@@ -521,8 +525,10 @@ func (h *Session) FindMACEntry(mac net.HardwareAddr) *MACEntry {
 func (h *Session) IsCaptured(mac net.HardwareAddr) bool {
 	h.mutex.RLock()
 	defer h.mutex.RUnlock()
-	if e, _ := h.MACTable.findMAC(mac); e != nil && e.Captured {
-		return true
+	if e, _ := h.MACTable.findMAC(mac); e != nil {
+		e.Row.RLock()
+		defer e.Row.RUnlock()
+		return e.Captured
 	}
 	return false
 }
@@ -533,6 +539,8 @@ func (h *Session) Capture(mac net.HardwareAddr) error {
 	defer h.mutex.Unlock()
 
 	macEntry := h.MACTable.findOrCreate(mac)
+	macEntry.Row.Lock() // readers hold the row lock only
+	defer macEntry.Row.Unlock()
 	if macEntry.Captured {
 		return nil
 	}
@@ -553,7 +561,9 @@ func (h *Session) Release(mac net.HardwareAddr) error {
 	defer h.mutex.Unlock()
 	macEntry, _ := h.MACTable.findMAC(mac)
 	if macEntry != nil {
+		macEntry.Row.Lock() // readers hold the row lock only
 		macEntry.Captured = false
+		macEntry.Row.Unlock()
 		if Logger.IsInfo() {
 			Logger.Msg("release").MAC("mac", mac).Write()
 		}
